@@ -21,7 +21,17 @@ pub fn judge(h: &History, recs: &[StepRec]) -> Result<(u32, u32), Failure> {
     let mut expect_first_uplink: Option<([u8; 16], [u8; 16], u32)> = None;
     let mut joined_model = matches!(h.activation, Activation::Abp { .. });
     let mut rxc_accepts_since_join = 0u32;
+    let mut steps_seen = 0usize;
+    let mut cur = creds(0);
     for r in recs {
+        // credentials configured by the application before this record
+        while steps_seen <= r.index && steps_seen < h.steps.len() {
+            if let Step::SetCreds(i) = &h.steps[steps_seen] {
+                cur = creds(*i);
+            }
+            steps_seen += 1;
+        }
+        let (cur_dev_eui, cur_join_eui, cur_key) = cur;
         if r.outcome.is_panic() {
             break;
         }
@@ -39,10 +49,10 @@ pub fn judge(h: &History, recs: &[StepRec]) -> Result<(u32, u32), Failure> {
                     Ok((jr, _)) => jr,
                     Err(e) => return Err(Failure::new("join-request-wellformed", case(), format!("step {}: {:?}: {}", r.index, e, hex(&t.bytes)))),
                 };
-                if jr.join_eui != JOIN_EUI || jr.dev_eui != DEV_EUI || t.bytes[0] != 0x00 {
-                    return Err(Failure::new("join-request-identifiers", case(), format!("JoinRequest carries JoinEUI {:016x} DevEUI {:016x} MHDR {:02x}; configured {:016x} / {:016x}", jr.join_eui, jr.dev_eui, t.bytes[0], JOIN_EUI, DEV_EUI)));
+                if jr.join_eui != cur_join_eui || jr.dev_eui != cur_dev_eui || t.bytes[0] != 0x00 {
+                    return Err(Failure::new("join-request-identifiers", case(), format!("JoinRequest carries JoinEUI {:016x} DevEUI {:016x} MHDR {:02x}; configured {:016x} / {:016x}", jr.join_eui, jr.dev_eui, t.bytes[0], cur_join_eui, cur_dev_eui)));
                 }
-                if !refcodec::join_request_mic_ok(&t.bytes, &APP_KEY) {
+                if !refcodec::join_request_mic_ok(&t.bytes, &cur_key) {
                     return Err(Failure::new("join-request-mic", case(), format!("JoinRequest MIC does not verify under the AppKey: {}", hex(&t.bytes))));
                 }
                 // ---- outcome
@@ -69,7 +79,7 @@ pub fn judge(h: &History, recs: &[StepRec]) -> Result<(u32, u32), Failure> {
                 let (dn, da, dad) = (bytes(&s["nwkskey"]), bytes(&s["appskey"]), bytes(&s["devaddr"]));
                 if dn != nwk || da != app {
                     // diagnose a stale DevNonce
-                    let stale = { let net_prev = refcodec::derive_skey(&APP_KEY, 1, desc.join_nonce, desc.net_id, jr.dev_nonce); net_prev.to_vec() != dn };
+                    let stale = { let net_prev = refcodec::derive_skey(&cur_key, 1, desc.join_nonce, desc.net_id, jr.dev_nonce); net_prev.to_vec() != dn };
                     return Err(Failure::new("session-keys", case(), format!("session keys differ from the LoRaWAN 1.0.x derivation with DevNonce {:04x} (nwk {} vs {}, app {} vs {}); derivation-with-sent-nonce-mismatch={stale}", jr.dev_nonce, hex(&dn), hex(&nwk), hex(&da), hex(&app))));
                 }
                 if dad != desc.dev_addr.to_le_bytes() {
@@ -205,6 +215,7 @@ pub fn history_strategy() -> impl Strategy<Value = History> {
         ];
         let step = prop_oneof![
             5 => join_plan.prop_map(Step::Join),
+            2 => (0u8..5).prop_map(Step::SetCreds),
             3 => (1u8..=200, 0u8..8, any::<bool>()).prop_map(|(port, len, confirmed)| Step::Send { port, len, confirmed, rx: RxPlan::default() }),
             1 => (1u8..=200, 0u8..8).prop_map(|(port, len)| Step::Send { port, len, confirmed: false, rx: RxPlan::rx1(Recipe::auth_empty(1)) }),
         ];
